@@ -196,9 +196,12 @@ def Server.handleReq (cfg : Cfg) (srv : Server) (c : Nat) (r : Req) (hint : Nat)
 def insertKV {κ : Type} [BEq κ] (l : List (κ × Req)) (k : κ) (v : Req) : List (κ × Req) :=
   if l.any (·.1 == k) then l.map fun q => if q.1 == k then (k, v) else q else l ++ [(k, v)]
 
-/-- `scheduler.Dispatch` -/
+/-- `handler.dispatch` after the join request's flush: an update without a pose is dropped before it reaches the
+    scheduler (it would take the place of the update with a pose that waits for the frame), the rest is
+    `scheduler.Dispatch` -/
 def Conn.dispatch (k : Conn) (r : Req) : Conn × Outcome :=
   match r with
+  | .updatePose _ _ none => (k, .ok)
   | .updatePose _ eid _ => ({ k with pendPose := insertKV k.pendPose eid r }, .ok)
   | .compUpdate _ tid eid _ => ({ k with pendComp := insertKV k.pendComp (tid, eid) r }, .ok)
   | .undecodable ty =>
@@ -210,7 +213,8 @@ def Conn.flush (k : Conn) (n : Nat) : Conn :=
   { k with queue := k.queue ++ (k.pendPose.map fun q => ⟨q.2, n⟩) ++ (k.pendComp.map fun q => ⟨q.2, n⟩),
            pendPose := [], pendComp := [] }
 
-def Req.isPose : Req → Bool | .updatePose .. => true | _ => false
+/-- a pose update that carries a pose (one that carries none never reaches the scheduler) -/
+def Req.isPose : Req → Bool | .updatePose _ _ (some _) => true | _ => false
 
 /-- the messages that may be at the head of the Go channel: the head item, or, when the head was flushed
     by a tick, any item of the same tick and the same map (pose / component) -/
@@ -226,6 +230,29 @@ def Conn.pop (k : Conn) (pick : Nat) : Option (Req × Conn) :=
   match g[pick]? <|> g.head? with
   | none => none
   | some it => some (it.req, { k with queue := k.queue.erase it })
+
+/-- `handler.dispatch`, the part before the scheduler: a join request first releases the updates that wait for the
+    frame - they were sent before it and are for the session the connection is in now (or for none), not for the one it
+    is about to join, where the same ids name other things -/
+def Server.beforeDispatch (srv : Server) (k : Conn) (r : Req) : Server × Conn :=
+  match r with
+  | .join .. => ({ srv with ticks := srv.ticks + 1 }, k.flush (srv.ticks + 1))
+  | _ => (srv, k)
+
+@[simp] theorem Server.beforeDispatch_sessions (srv : Server) (k : Conn) (r : Req) : (srv.beforeDispatch k r).1.sessions = srv.sessions := by
+  unfold Server.beforeDispatch; split <;> rfl
+@[simp] theorem Server.beforeDispatch_conns (srv : Server) (k : Conn) (r : Req) : (srv.beforeDispatch k r).1.conns = srv.conns := by
+  unfold Server.beforeDispatch; split <;> rfl
+@[simp] theorem Server.beforeDispatch_receipts (srv : Server) (k : Conn) (r : Req) : (srv.beforeDispatch k r).1.receipts = srv.receipts := by
+  unfold Server.beforeDispatch; split <;> rfl
+@[simp] theorem Server.beforeDispatch_forwarded (srv : Server) (k : Conn) (r : Req) : (srv.beforeDispatch k r).1.forwarded = srv.forwarded := by
+  unfold Server.beforeDispatch; split <;> rfl
+@[simp] theorem Server.beforeDispatch_ids (srv : Server) (k : Conn) (r : Req) : (srv.beforeDispatch k r).1.ids = srv.ids := by
+  unfold Server.beforeDispatch; split <;> rfl
+@[simp] theorem Server.beforeDispatch_gauge (srv : Server) (k : Conn) (r : Req) : (srv.beforeDispatch k r).1.gauge = srv.gauge := by
+  unfold Server.beforeDispatch; split <;> rfl
+@[simp] theorem Server.beforeDispatch_uuidCur (srv : Server) (k : Conn) (r : Req) : (srv.beforeDispatch k r).1.uuidCur = srv.uuidCur := by
+  unfold Server.beforeDispatch; split <;> rfl
 
 /-! ### the step function -/
 
@@ -244,9 +271,9 @@ def step (cfg : Cfg) (srv : Server) (e : Event) : SRes :=
     match srv.findConn c with
     | none => (srv, [], .ok)
     | some k =>
-      match k.dispatch r with
-      | (k', .ok) => (srv.setConn k', [], .ok)
-      | (_, o) => let (srv', ds) := srv.disconnect cfg c; (srv', ds, o)
+      match (srv.beforeDispatch k r).2.dispatch r with
+      | (k', .ok) => ((srv.beforeDispatch k r).1.setConn k', [], .ok)
+      | (_, o) => let (srv', ds) := (srv.beforeDispatch k r).1.disconnect cfg c; (srv', ds, o)
   | .handle c pick hint =>
     match srv.findConn c with
     | none => (srv, [], .ok)
